@@ -81,9 +81,9 @@ def judge(ctx, vk, dom, Q, sig, fmt, digest, allow_truncate, cls, key, cname, d=
     try:
         if via_verify is not None:
             data, hf = via_verify
-            got = vk.verify(sig_arg, data, hashfunc=hf, sigdecode=dec, allow_truncate=allow_truncate)
+            got = vk.verify(sig_arg, data, hashfunc=hf, sigdecode=dec, allow_truncate=gen.boolish(allow_truncate, _BL["i"]))
         else:
-            got = vk.verify_digest(sig_arg, dig_arg, sigdecode=dec, allow_truncate=allow_truncate)
+            got = vk.verify_digest(sig_arg, dig_arg, sigdecode=dec, allow_truncate=gen.boolish(allow_truncate, _BL["i"]))
         outcome = "accept" if got is True else "returned %r" % (got,)
     except ecdsa.BadSignatureError:
         outcome = "reject"
@@ -199,7 +199,7 @@ def run(ctx, name, kind, **kw):
                     judge(ctx, vkk or vk, dom, QQ or Q, sigs.ref_encode(f, rr, ss, n), f, digest, at, cls, key or c.name, c.name, d=dd)
             J("prod.valid", r, s)
             # through verify() with hashing, several hashes
-            for hn in ("sha1", "sha256", "sha512", "blake2b_13"):
+            for hn in ("sha1", "sha256", "sha512", "blake2b_13", "blake2b_person", "prefixed_sha256"):
                 hf = lib.hash_by_name(hn)
                 dg2 = hf(msg).digest()
                 e2 = ecdsa_ref.digest_to_e(dom, dg2, True)
